@@ -765,8 +765,8 @@ example :
     whenever the documentation makes a promise (`documented v e = some d`), the validator
     returns exactly the verdict `d`, without raising, and calls `note_error` iff `d` is false —
     except for `HTTPURLValidator` on an element without a value that is promised False
-    (KF-C15-a) and the other open findings collected in `Spec.excluded` (KF-C15-c, -d: `required_parts`
-    entries the code reads differently from the docstring; KF-C15-g: `''` listed in `allowed_schemes`). -/
+    (KF-C15-a) and the other open finding collected in `Spec.excluded` (KF-C15-g: `''` listed in
+    `allowed_schemes`). -/
 theorem decides_partial (v : V) (e : View) (d : Bool) (hd : documented v e = some d)
     (hk : Excluded v e d = false) : Decides v e d := by
   cases v with
@@ -818,11 +818,14 @@ theorem C15_partial :
 theorem C15_full_fails : ¬ C15_Full := fun h =>
   C15_HttpFull_fails (fun ap req forb e d hd => h _ e d hd)
 
-/-- … and stays false with KF-C15-a set aside: KF-C15-c (`C15_required_true_never_fails`) and
-    KF-C15-g (`C15_empty_scheme_always_blocked`) refute it on elements that hold a text -/
+/-- … and stays false with KF-C15-a set aside: KF-C15-g (`C15_empty_scheme_always_blocked`)
+    refutes it on an element that holds a text -/
 theorem C15_full_fails_with_value :
     ¬ (∀ (v : V) (e : View) (d : Bool), e.value ≠ .none → documented v e = some d → Decides v e d) :=
-  fun h => C15_HttpFull_fails_with_value (fun ap req forb e d hne hd => h _ e d hne hd)
+  fun h => C15_UrlFull_fails (fun s p e d hd => by
+    cases hv : e.value with
+    | none => simp [documented, hv] at hd; subst hd; exact decides_fail _ _ "bad_format" [] (by simp [verdict, hv])
+    | _ => exact h _ e d (by simp [hv]) hd)
 
 /-- witness of the fixed D-C15-7: `MapEqual` with its own default transform on two equal
     fields now returns True -/
